@@ -6,7 +6,7 @@ CFG = {
         'bmtree.PathsOf': 'bmtree.PathsOf',
         'bmtree.PathsOf/held': 'bmtree.PathsOf (two calls, both results read after the second)'},
  'rule': 'cases = corpus + held pairs of PathsOf results over ascending sizes (run first) + exhaustive (all strings of length 0..2 (thorough 0..3) over {00,80,ff,01,a5} x all from in '
-         '[0, 8*len+9] and 56 x all widths 0..32) + sampled strings of length 3..6 over the same alphabet (all from <= 56, '
+         '[0, 8*len+9] and 56 x all widths 0..32; all strings of length 5 x unaligned starts x width 32 (five-byte windows; thorough: from 0..8 x widths 24..32 and all strings of length 4 x all from x all widths)) + sampled strings of length 3..6 over the same alphabet (all from <= 56, '
          'boundary widths) + random strings of length 0..40 over the shared byte alphabets with starts before / at / after '
          'the end of the string, aligned and unaligned, widths aimed at byte-span boundaries and at the end of the string '
          '+ far starts up to 2^31-40 + PathsOf key lists (sorted with shared prefixes, unsorted with non-adjacent '
